@@ -157,6 +157,8 @@ def run(tier, seed):
     for i in (1, 2, 3):
         n_paths += stage_adjust(pr, cr, i)
     init_and_accessors(pr, cr)
+    import vl
+    pr.obs += vl.run_lemmas("C05", ["stagewise"])
     meta = {
         "level": "proof",
         "checker_cmd": "./check C05 (rsx -> RS executor, stage-wise on the real body of Quantile::add -> z3)",
@@ -169,7 +171,8 @@ def run(tier, seed):
         "trusted_base": ["rsx + RS executor (own code)", "z3 5.1", "clean-room reference step props/quantile_rs.py (A-SPEC: transcribed from Jain & Chlamtac 1985, boxes B1-B3)"],
         "assumptions": [A_REAL, A_LIB, "A-LIB: Float::signum, easy_cast conv_nearest on +-1, float_ord::sort",
                         "sequential composition: the step is prologue; adjust(1); adjust(2); adjust(3) in the code and in the reference alike, each stage proved equal from an arbitrary "
-                        "well-formed state and well-formedness proved preserved by each stage, hence equal steps from equal states; the induction over the stream is this composition argument, not a machine-checked lemma",
+                        "well-formed state and well-formedness proved preserved by each stage; that such stage contracts compose to equal steps and, by induction over the stream, to equal states after every observation "
+                        "is machine-checked abstractly (Verus lemma_stagewise_step / lemma_stagewise_stream); instantiating its hypotheses with the discharged stage obligations is by inspection",
                         "'up to the rounding of the same arithmetic' is exact-real semantics: real-valued results are compared, so reassociating a formula is not a violation",
                         "observations are finite and not NaN (outside the property otherwise)"],
         "explanation": "%d symbolic paths over the four stages; every marker height, position and desired position compared with the reference on every path." % n_paths,
